@@ -63,6 +63,8 @@ func genMixedCase(p mixedParams) *rapid.Generator[Case] {
 				c.Steps = append(c.Steps, Step{K: "reopen"})
 			case r < p.ReopenPct+p.MergePct:
 				c.Steps = append(c.Steps, Step{K: "merge"})
+			case structs && p.MaxOps >= 2 && p.ReadsInTx && rapid.IntRange(0, 11).Draw(t, "noopatcommit") == 7:
+				c.Steps = append(c.Steps, genNoopAtCommit(t, buckets[0], i)...)
 			case p.MultiKV > 1 && rapid.IntRange(0, 2).Draw(t, "multikv") == 1:
 				// one transaction writing key/value pairs of several buckets (bucket+key concatenations may coincide)
 				st := Step{K: "tx", Managed: rapid.Bool().Draw(t, "managed")}
@@ -95,6 +97,36 @@ func genMixedCase(p mixedParams) *rapid.Generator[Case] {
 		}
 		return c
 	})
+}
+
+// genNoopAtCommit builds two steps on a fresh list key of known size: a push of n elements, then ONE transaction
+// that pops p of them and afterwards calls LSet / LTrim / LRem / a further pop with arguments that are valid for the
+// list as it is when the calls are made (reads inside a transaction see the state at Begin) but refer to elements
+// that no longer exist when the calls are applied at Commit - and again when the log is replayed by Open.
+func genNoopAtCommit(t *rapid.T, bucket string, serial int) []Step {
+	key := S("np" + string(rune('a'+serial%26)))
+	n := rapid.IntRange(1, 4).Draw(t, "npn")
+	vals := []S{"a", "b", "a", "c"}[:n]
+	p := rapid.IntRange(1, n).Draw(t, "npp")
+	tx := Step{K: "tx", Managed: rapid.Bool().Draw(t, "npmanaged")}
+	for i := 0; i < p; i++ {
+		tx.Ops = append(tx.Ops, Op{K: rapid.SampledFrom([]string{"rpop", "lpop"}).Draw(t, "nppop"), B: S(bucket), Key: key})
+	}
+	switch rapid.IntRange(0, 4).Draw(t, "npkind") {
+	case 0:
+		tx.Ops = append(tx.Ops, Op{K: "lset", B: S(bucket), Key: key, I: n - 1, V: "z"})
+	case 1:
+		tx.Ops = append(tx.Ops, Op{K: "ltrim", B: S(bucket), Key: key, I: n - 1, J: n - 1})
+	case 2:
+		tx.Ops = append(tx.Ops, Op{K: "lrem", B: S(bucket), Key: key, I: n, V: "a"})
+	case 3:
+		tx.Ops = append(tx.Ops, Op{K: "lset", B: S(bucket), Key: key, I: 0, V: "z"}, Op{K: "ltrim", B: S(bucket), Key: key, I: 0, J: n - 1})
+	default:
+		for i := p; i < n+1; i++ {
+			tx.Ops = append(tx.Ops, Op{K: "rpop", B: S(bucket), Key: key})
+		}
+	}
+	return []Step{{K: "tx", Ops: []Op{{K: "rpush", B: S(bucket), Key: key, Vs: vals}}}, tx}
 }
 
 // writesOf returns the (structure,bucket) pairs a step may modify.
